@@ -44,7 +44,7 @@ def strategy(tier):
         if mrun.kind_of(name) in ("thr", "detr", "pthr", "q1") and draw(st.sampled_from([False, False, True])):
             axis = "threshold"          # the axis whose rows follow the order given on the command line
         return {"spec": spec, "metric": name, "axis": axis, "type": draw(st.sampled_from(["csv", "csv", "text"])),
-                "to_file": draw(st.booleans()), "leg": draw(st.booleans()), "acc": draw(st.sampled_from([False, False, True])),
+                "to_file": draw(st.booleans()), "leg": draw(st.sampled_from([False, True, False, True, "dup", "samename"])), "acc": draw(st.sampled_from([False, False, True])),
                 "kind": draw(st.sampled_from(["text", "netcdf"])), "bin_type": b, "nthr": nthr,
                 "thr_seed": draw(st.lists(st.integers(-12, 12), min_size=3, max_size=3, unique=True)),
                 "thr_perm": draw(st.sampled_from([None, None, [2, 0, 1], [1, 0, 2], [2, 1, 0], [0, 2, 1]]))}
@@ -185,7 +185,18 @@ def check_table(case, ctx):
     d = os.path.join(ctx.scratch, "o%d" % _counter[0])
     os.makedirs(d)
     paths, _ = mat.write_files(spec, d, case["kind"])
-    legend = ["Model_%d" % i if i % 2 == 0 else "run%d" % i for i in range(n_in)] if case["leg"] else None
+    legend = ["Model_%d" % i if i % 2 == 0 else "run%d" % i for i in range(n_in)] if case["leg"] in (True, "dup") else None
+    if case["leg"] == "dup" and n_in >= 2:
+        legend[-1] = legend[0]          # two files given the same legend name: still one column per input file
+        ctx.label("duplicate-column-names")
+    if case["leg"] == "samename" and n_in >= 2:
+        # files with the same base name in different directories: still one column per input file
+        sub_d = os.path.join(d, "other")
+        os.makedirs(sub_d)
+        moved = os.path.join(sub_d, os.path.basename(paths[0]))
+        os.rename(paths[-1], moved)
+        paths[-1] = moved
+        ctx.label("duplicate-column-names")
     args = paths + ["-m", name, "-x", axis, "-type", case["type"]] + margs
     if legend:
         args += ["-leg", ",".join(legend)]
